@@ -2,6 +2,7 @@
 import ast
 
 from .common import *  # noqa
+from .common import _exc_ancestors
 
 DIO = "dendropy.dataio."
 READER_MODULES = [DIO + m for m in ("tokenizer", "nexusprocessing", "newickreader", "newickyielder", "nexusreader", "nexusyielder", "phylipreader", "fastareader")]
@@ -1105,6 +1106,48 @@ def run(index, rep, tier):
                 rep.check(not bad, "R20.10", m, "regular expression with nested unbounded repetition: %s" % pat[:50], "%s:%d" % (mod.relpath, c.lineno), "pattern `%s` has no nested unbounded repetition" % pat[:40],
                           "the pattern `%s` in %s repeats, without bound, a group that itself consists of an unbounded repetition plus only optional parts: when the text stops matching near its end (a `{` list in a metadata comment that lost its closing brace) the matcher tries every way of splitting the run between the two loops - exponential time, i.e. the reader hangs on a one-character truncation" % (pat[:80], m))
         rep.floor("R20.10", "regular expressions in the reader modules", 4, nre)
+
+    # ---- R20.11 control-flow exceptions stay inside the reader
+    with rep.section("R20.11"):
+        rep.rule("R20.11", "control-flow exceptions stay inside the reader: an exception class of the reader modules that is NOT in the data-parse-error family (used to signal 'block ended' internally) is caught around every call of a routine that can raise it")
+        fam = set()
+        for k in index.classes.values():
+            if k.module.name in READER_MODULES or k.module.name == "dendropy.utility.error":
+                anc = _exc_ancestors(index, k.name, None)
+                if "DataParseError" in anc:
+                    fam.add(k.name)
+        internal = [k for k in index.classes.values() if k.module.name in READER_MODULES and "Exception" in _exc_ancestors(index, k.name, None) and k.name not in fam and not ({"DataParseError"} & _exc_ancestors(index, k.name, None))]
+        nint = 0
+        for k in sorted(internal, key=lambda c: c.qualname):
+            raisers = {}
+            for f in sm.fns:
+                for r in walk_no_nested(f.node):
+                    if isinstance(r, ast.Raise) and r.exc is not None and (norm(r.exc.func) if isinstance(r.exc, ast.Call) else norm(r.exc)).split(".")[-1] == k.name:
+                        raisers[f.qualname] = f
+            if not raisers:
+                continue
+            for f in sm.fns:
+                pm = None
+                for c in calls_in(f.node):
+                    cals = [x for x in sm.callees(f, c) if x.qualname in raisers]
+                    if not cals:
+                        continue
+                    nint += 1
+                    pm = pm or parent_map(f.node)
+                    q = pm.get(c)
+                    caught = False
+                    prev = c
+                    while q is not None and q is not f.node:
+                        if isinstance(q, ast.Try) and any(prev is b or any(prev is y for y in ast.walk(b)) for b in q.body):
+                            for h in q.handlers:
+                                names = {"BaseException"} if h.type is None else {norm(e).split(".")[-1] for e in (h.type.elts if isinstance(h.type, ast.Tuple) else [h.type])}
+                                if names & _exc_ancestors(index, k.name, None):
+                                    caught = True
+                        prev = q
+                        q = pm.get(q)
+                    rep.check(caught, "R20.11", f.qualname, "%s can escape from the call of %s" % (k.name, cals[0].name), fn_where(f, c), "%s: %s is caught around the call of %s" % (f.name, k.name, cals[0].name),
+                              "%s calls %s, which raises %s (a plain Exception used to signal that the block ended), outside any handler for it: a matrix whose `;` comes before a row is complete (`b AC;`), or a repeated row label, makes that internal signal escape to the caller instead of a data-parse error" % (f.qualname, cals[0].qualname, k.name))
+        rep.floor("R20.11", "calls of routines raising an internal control exception", 2, nint)
 
 
 def _branch_calls_raiser(cfg, n):
